@@ -155,6 +155,40 @@ Theorem unknown_view_rejected e t r h body :
 Proof. intros Ft Hn. exact (client_rejects_unknown e t r None h body Ft eq_refl Hn). Qed.
 Print Assumptions unknown_view_rejected.
 
+(* ... as long as the response has a body type. When every attribute of the result is carried
+   by headers / cookies the generated decoder skips the validation: an undefined view name is
+   then answered with a nil result and NO error. Known finding
+   undefined-view-accepted:bodyless-response. *)
+Theorem unknown_view_rejected_partial e t r h m x :
+  find_type e t = Some r -> ~ In (norm h) (map v_name (r_views r)) -> bodyless e t m = false ->
+  client_decode_resp e t None (Some h) m x = CErr.
+Proof.
+  intros Ft Hn Hb. rewrite (client_resp_with_body e t None (Some h) m x Hb).
+  exact (client_rejects_unknown e t r None h x Ft eq_refl Hn).
+Qed.
+Print Assumptions unknown_view_rejected_partial.
+
+Theorem unknown_view_rejected_refuted :
+  exists e t r h m x, find_type e t = Some r /\ ~ In (norm h) (map v_name (r_views r)) /\
+    bodyless e t m = true /\ client_decode_resp e t None (Some h) m x = CNil.
+Proof.
+  exists [("R", mkRT [mkAttr "k" (TLeaf true) None true; mkAttr "n" (TLeaf true) None true]
+                    [mkView "default" [("k", None); ("n", None)]; mkView "mid" [("k", None); ("n", None)]])],
+         "R", (mkRT [mkAttr "k" (TLeaf true) None true; mkAttr "n" (TLeaf true) None true]
+                    [mkView "default" [("k", None); ("n", None)]; mkView "mid" [("k", None); ("n", None)]]),
+         "nope", ["k"; "n"], (VObj (VFCons "k" (VLeaf 1) (VFCons "n" (VLeaf 2) VFNil))).
+  split; [reflexivity|]. split; [|split; reflexivity].
+  simpl. intros [H|[H|[]]]; discriminate.
+Qed.
+Print Assumptions unknown_view_rejected_refuted.
+
+(* a defined view is decoded the same way with or without a body *)
+Theorem bodyless_defined_view_unaffected e t fixed hdr m x :
+  has_view e t (norm (match fixed with Some f => f | None => match hdr with Some h => h | None => "" end end)) = true ->
+  client_decode_resp e t fixed hdr m x = client_decode e t fixed hdr x.
+Proof. exact (client_resp_defined e t fixed hdr m x). Qed.
+Print Assumptions bodyless_defined_view_unaffected.
+
 (* server half: for EVERY view name the type does not define ("" standing for "default"),
    returned by the service method, single result or collection, the generated server answers a
    fault and renders nothing *)
